@@ -97,6 +97,10 @@ func validatorSources() []vsrc {
 		{"tag nonzero on inline named slice with Validate", oneInline("nonzero", ptd("cat:c04_vl")), tvS(tvS(tvI(1))), tvS(tvS()), gen.List(num(1)), gen.List()},
 		{"tag required on inline map of struct", oneInline("required", tdOf("map", one("Y", "y", "", ptd("int")))), tvS(tvMap("k", tvS(tvI(0)))), tvS(&gen.TV{Keys: []string{}, Elems: []*gen.TV{}}), objOf("k", objOf("y", num(1))), gen.Obj()},
 		{"tag nonzero on inline map with InitDefaults", oneInline("nonzero", ptd("cat:c04_dm")), tvS(tvMap("k", tvI(1))), nil, objOf("k", num(1)), nil},
+		// validate tags on fields of type interface{}: they apply to the value the interface holds (generic data here)
+		{"tag nonzero on interface{}", one("X", "x", "nonzero", ifc()), tvS(&gen.TV{Tree: gen.Uint(5)}), tvS(&gen.TV{Tree: gen.Uint(0)}), objOf("x", num(5)), objOf("x", num(0))},
+		{"tag required on interface{}", one("X", "x", "required", ifc()), tvS(&gen.TV{Tree: gen.Str("a")}), tvS(&gen.TV{Nil: true}), objOf("x", gen.Str("a")), objOf("x", gen.Str(""))},
+		{"tag min on interface{}", one("X", "x", "min=1", ifc()), tvS(&gen.TV{Tree: gen.Int(1)}), tvS(&gen.TV{Tree: gen.Int(-1)}), objOf("x", num(1)), objOf("x", num(0))},
 	}
 }
 
